@@ -53,6 +53,9 @@ fn run<B: SimField, H: ElementHasher<BaseField = B> + Send + Sync + 'static>(
     if case.shape.aux.as_ref().map(|a| a.lagrange).unwrap_or(false) {
         ctx.probe("lagrange_kernel");
     }
+    if case.shape.aux.as_ref().map(|a| a.gkr_empty).unwrap_or(false) {
+        ctx.probe("gkr_proof_of_zero_bytes");
+    }
     if case.shape.assertions.iter().any(|a| a.kind == AssertKind::Sequence && a.count >= 64) {
         ctx.probe("sequence_assertion_64_or_more");
     }
